@@ -147,7 +147,7 @@ func race(script, file string, timeoutMs int, cover bool, sliced ...string) (str
 		f := fmt.Sprintf("%s.hop%d.smt2", file, k+1)
 		os.WriteFile(f, []byte(sc), 0o644)
 		for _, vi := range []int{0, 1} {
-			v := &variant{name: fmt.Sprintf("%s/hop%d", variants[vi].name, k+1), cmd: variants[vi].cmd, proveOnly: true}
+			v := &variant{name: fmt.Sprintf("%s/slice%d", variants[vi].name, k+1), cmd: variants[vi].cmd, proveOnly: true}
 			n++
 			go func(v *variant, f string) {
 				r, out, dt := runSolverCtx(ctx, v.cmd(f, timeoutMs))
@@ -185,21 +185,23 @@ func discharge(results []*FuncResult, workers int, timeoutMs int, seed int, keep
 		fr      *FuncResult
 		o       *Obl
 		id      int
-		script  string // all relevant assumptions (closure)
-		script1 string // assumptions within one hop of the goal
-		script2 string // within two hops
+		script  string // all assumptions
+		script1 string // relevant assumptions (closure)
+		script2 string // relevant assumptions within two hops
 	}
 	var jobs []job
 	for _, fr := range results {
 		for _, o := range fr.Obls {
-			j := job{fr: fr, o: o, id: len(jobs), script: fr.VC.script(o, 0)}
+			// the full script (every assumption made before the obligation) is the only one whose
+			// "sat" answers are used; the sliced ones can only prove
+			j := job{fr: fr, o: o, id: len(jobs), script: fr.VC.script(o, -1)}
 			if !o.Cover {
-				j.script1 = fr.VC.script(o, 1)
+				j.script1 = fr.VC.script(o, 0)
 				j.script2 = fr.VC.script(o, 2)
-				if j.script2 == j.script {
+				if j.script2 == j.script1 {
 					j.script2 = ""
 				}
-				if j.script1 == j.script || j.script1 == j.script2 {
+				if j.script1 == j.script {
 					j.script1 = ""
 				}
 			}
